@@ -109,6 +109,9 @@ def run(ctx):
                 s['cfg']['B'] = rng.choice([256, 300, 517])
                 s['Q'] = s['Q'][:2]
                 s['cells'] = s['cells'][:2]
+            if _ % 4 == 1:
+                # a bootstrap factor per level (level 0 = the root) instead of the global one
+                s['cfg']['flookup'] = {str(l): [rng.randint(1, 10), 10] for l in [0] + s['tree']['hier'][:-1]}
             if _ % 10 == 3:
                 s['Q'] = [[0] * len(s['qgenes']) for _ in s['cells']]
                 for row in s['Q']:
